@@ -206,6 +206,11 @@ package redisemu
 //@ ensures [C04,C05] member: more ==> rdi.dict.vdom[rdi.key] && rdi.value == rdi.dict.vval[rdi.key]
 //@ ensures [C04,C05] done: !more ==> int(rdi.bucketNumber) >= len(rdi.dict.buckets) && allsel(j, int(old(rdi.bucketNumber)), len(rdi.dict.buckets), rdi.dict.buckets[j] == nil)
 //@ ensures done.keep: !more ==> rdi.key == old(rdi.key) && rdi.value == old(rdi.value)
+// the same step over the abstract view: which present keys lie in the part of the table just passed
+//@ ensures [C04,C05] view.slot: more ==> dslot(sip(rdi.key), len(rdi.dict.buckets)) == int(rdi.bucketNumber)-1
+//@ ensures [C04,C05] view.skipped: more ==> allstr(q, !rdi.dict.vdom[q] || dslot(sip(q), len(rdi.dict.buckets)) < int(old(rdi.bucketNumber)) || dslot(sip(q), len(rdi.dict.buckets)) >= int(rdi.bucketNumber)-1)
+//@ ensures [C04,C05] view.unique: more ==> allstr(q, !rdi.dict.vdom[q] || dslot(sip(q), len(rdi.dict.buckets)) != int(rdi.bucketNumber)-1 || q == rdi.key)
+//@ ensures [C04,C05] view.done: !more ==> allstr(q, !rdi.dict.vdom[q] || dslot(sip(q), len(rdi.dict.buckets)) < int(old(rdi.bucketNumber)))
 
 //@ func redisDict.clone
 //@ safetyprop C13
